@@ -37,8 +37,16 @@ func runC09(c *Ctx) {
 	}
 	info := pk.TypesInfo
 	methods := p.Methods(pkg, "authenticatedMap")
-	if len(methods) < 10 {
-		r.Unresolved("anchors", "ads.authenticatedMap", fmt.Sprintf("expected >= 10 methods, found %d", len(methods)))
+	// non-vacuity floor on the exported operations (the unexported helpers may be methods, package-level
+	// functions, or inlined)
+	nExp := 0
+	for _, fd := range methods {
+		if fd.Name.IsExported() {
+			nExp++
+		}
+	}
+	if nExp < 9 {
+		r.Unresolved("anchors", "ads.authenticatedMap", fmt.Sprintf("expected >= 9 exported methods, found %d", nExp))
 	}
 	// (1) locks
 	checkGuards(r, p, "lock/guarded-by", []GuardRow{
@@ -65,26 +73,38 @@ func runC09(c *Ctx) {
 	checkPresencePredicate(r, p, pkg, info, methods)
 	checkStoredValueNonNil(r, p, pkg, info)
 
+	// the parts of the map are recognised as the field itself or as a value of the field's type handed
+	// to a helper (`treeHas(m.tree, k)` operates on its parameter): the tree and the size counter each
+	// have a type no other field of the map has
+	partIs := adsPartIs(p, pkg, info)
 	treeCall := func(name string) func(*ast.CallExpr) bool {
 		return func(c *ast.CallExpr) bool {
 			se, ok := ast.Unparen(c.Fun).(*ast.SelectorExpr)
-			return ok && se.Sel.Name == name && fieldSel(info, se.X, "tree")
+			return ok && se.Sel.Name == name && partIs(se.X, "tree")
 		}
 	}
 	fieldCall := func(field, name string) func(*ast.CallExpr) bool {
 		return func(c *ast.CallExpr) bool {
 			se, ok := ast.Unparen(c.Fun).(*ast.SelectorExpr)
-			return ok && se.Sel.Name == name && fieldSel(info, se.X, field)
+			return ok && se.Sel.Name == name && partIs(se.X, field)
 		}
 	}
-	helperCall := func(name string) func(*ast.CallExpr) bool {
+	// helpers by role, not by name: a call of an unexported function or method of the package (spliced
+	// into the operation) whose body performs the given operation on the given part
+	roleCall := func(f *FuncCFG, pred func(*ast.CallExpr) bool) func(*ast.CallExpr) bool {
 		return func(c *ast.CallExpr) bool {
-			se, ok := ast.Unparen(c.Fun).(*ast.SelectorExpr)
-			if !ok || se.Sel.Name != name {
+			reg := f.regionByCall(c)
+			if reg == nil || reg.fd == nil || reg.fd.Body == nil {
 				return false
 			}
-			sel := info.Selections[se]
-			return sel != nil && sel.Kind() == types.MethodVal
+			hit := false
+			inspectNoLit(reg.fd.Body, func(n ast.Node) bool {
+				if cc, ok := n.(*ast.CallExpr); ok && pred(cc) {
+					hit = true
+				}
+				return !hit
+			})
+			return hit
 		}
 	}
 	// (3) size accounting
@@ -95,6 +115,7 @@ func runC09(c *Ctx) {
 		delta      string
 		presentEdg bool // edge of `has` that licenses the size change
 	}
+	sizeHelpers := map[*ast.FuncDecl]bool{}
 	for _, a := range []acct{{"Set", "Update", "Set", "1", false}, {"Delete", "Delete", "Delete", "-1", true}} {
 		key := "ads.authenticatedMap." + a.method
 		f := p.CFGOf(pkg, "authenticatedMap", a.method)
@@ -102,14 +123,15 @@ func runC09(c *Ctx) {
 			r.Unresolved("size/accounting", key, "method not found")
 			continue
 		}
-		hasCalls := f.Calls(helperCall("has"))
+		hasCalls := f.Calls(roleCall(f, treeCall("Get")))
 		muts := f.Calls(treeCall(a.mutate))
 		mirrors := f.Calls(fieldCall("rawKeysStore", a.mirror))
-		sizes := f.Calls(helperCall("addSize"))
+		sizes := f.Calls(roleCall(f, fieldCall("size", "Set")))
 		if len(hasCalls) != 1 || len(muts) != 1 || len(mirrors) != 1 || len(sizes) != 1 {
-			r.Fail("size/accounting", key, f.P.posStr(f.Body.Pos()), fmt.Sprintf("expected one each of has/tree.%s/rawKeysStore.%s/addSize, found %d/%d/%d/%d", a.mutate, a.mirror, len(hasCalls), len(muts), len(mirrors), len(sizes)))
+			r.Fail("size/accounting", key, f.P.posStr(f.Body.Pos()), fmt.Sprintf("expected one each of membership helper (tree.Get)/tree.%s/rawKeysStore.%s/size helper (size.Set), found %d/%d/%d/%d", a.mutate, a.mirror, len(hasCalls), len(muts), len(mirrors), len(sizes)))
 			continue
 		}
+		sizeHelpers[p.decls().byFunc[staticCallee(info, sizes[0])]] = true
 		hasPt, _ := f.PointOf(hasCalls[0])
 		mutPt, _ := f.PointOf(muts[0])
 		mirPt, _ := f.PointOf(mirrors[0])
@@ -141,8 +163,8 @@ func runC09(c *Ctx) {
 		}
 		if w, ok := f.OnlyThroughEdges(sizePt, lic); !ok {
 			r.Fail("size/accounting", key+" addSize", f.PosOf(sizePt), "the size is adjusted on a path that did not establish the key was "+licName+" before the operation", w...)
-		} else if len(sizes[0].Args) != 1 || exprKey(sizes[0].Args[0]) != a.delta {
-			r.Fail("size/accounting", key+" addSize", f.PosOf(sizePt), "size delta must be "+a.delta+", found "+exprKey(sizes[0].Args[0]))
+		} else if d := constArgs(info, sizes[0]); len(d) != 1 || d[0] != a.delta {
+			r.Fail("size/accounting", key+" addSize", f.PosOf(sizePt), fmt.Sprintf("size delta must be %s, found %v", a.delta, d))
 		} else {
 			r.Pass("size/accounting", key+" addSize", f.PosOf(sizePt), "addSize("+a.delta+") only on the "+licName+" edge of the earlier membership test")
 		}
@@ -203,10 +225,15 @@ func runC09(c *Ctx) {
 			r.Pass("size/mirror", key, f.PosOf(mutPt), "every success return after tree."+a.mutate+" passes rawKeysStore."+a.mirror)
 		}
 	}
-	// addSize shape
-	if fd := p.FuncDecl(pkg, "authenticatedMap", "addSize"); fd == nil {
-		r.Unresolved("size/helper", "ads.authenticatedMap.addSize", "method not found")
-	} else {
+	// shape of the size helper (found by role: the helper Set and Delete adjust the size through)
+	if len(sizeHelpers) != 1 {
+		r.Unresolved("size/helper", "ads.authenticatedMap.addSize", fmt.Sprintf("expected one size helper shared by Set and Delete, found %d", len(sizeHelpers)))
+	}
+	for fd := range sizeHelpers {
+		if fd == nil || fd.Body == nil {
+			r.Unresolved("size/helper", "ads.authenticatedMap.addSize", "declaration of the size helper not found")
+			continue
+		}
 		ok := false
 		params := paramObjs(info, fd)
 		ast.Inspect(fd.Body, func(n ast.Node) bool {
@@ -218,8 +245,12 @@ func runC09(c *Ctx) {
 			ast.Inspect(c.Args[0], func(m ast.Node) bool {
 				switch x := m.(type) {
 				case *ast.Ident:
-					if len(params) == 1 && info.Uses[x] == params[0] {
-						hasDelta = true
+					for _, po := range params {
+						if po != nil && info.Uses[x] == po {
+							if b, isB := po.Type().Underlying().(*types.Basic); isB && b.Info()&types.IsInteger != 0 {
+								hasDelta = true
+							}
+						}
 					}
 					if dc := definingCall(info, fd.Body, x); dc != nil && fieldCall("size", "Get")(dc) {
 						hasSize = true
@@ -237,7 +268,7 @@ func runC09(c *Ctx) {
 		if ok {
 			r.Pass("size/helper", "ads.authenticatedMap.addSize", p.posStr(fd.Pos()), "stores size.Get() + delta")
 		} else {
-			r.Fail("size/helper", "ads.authenticatedMap.addSize", p.posStr(fd.Pos()), "addSize must store the current size plus the delta")
+			r.Fail("size/helper", "ads.authenticatedMap.addSize", p.posStr(fd.Pos()), "the size helper must store the current size plus the delta")
 		}
 	}
 	// (4) commit / reopen
@@ -316,7 +347,7 @@ func runC09(c *Ctx) {
 		params := paramObjs(info, fd)
 		ast.Inspect(fd.Body, func(n ast.Node) bool {
 			if rs, isRet := n.(*ast.ReturnStmt); isRet && len(rs.Results) == 1 {
-				if c, isC := ast.Unparen(rs.Results[0]).(*ast.CallExpr); isC && helperCall("Set")(c) && len(c.Args) == 2 && len(params) == 1 && objOfIdent(info, c.Args[0]) == params[0] {
+				if c, isC := ast.Unparen(rs.Results[0]).(*ast.CallExpr); isC && selectorCall(info, c, "", "Set") && len(c.Args) == 2 && len(params) == 1 && objOfIdent(info, c.Args[0]) == params[0] {
 					ok = true
 				}
 			}
@@ -474,6 +505,11 @@ func checkAdsConstructor(r *Reporter, p *Prog) {
 // others (Size/Has/Delete/Stream/Root disagree with Get).
 func checkPresencePredicate(r *Reporter, p *Prog, pkg string, info *types.Info, methods []*ast.FuncDecl) {
 	nGets, nNil := 0, 0
+	partIs := adsPartIs(p, pkg, info)
+	isTreeGet := func(cl *ast.CallExpr) bool {
+		se, ok := ast.Unparen(cl.Fun).(*ast.SelectorExpr)
+		return ok && se.Sel.Name == "Get" && partIs(se.X, "tree")
+	}
 	for _, fd := range methods {
 		if fd.Body == nil {
 			continue
@@ -495,7 +531,7 @@ func checkPresencePredicate(r *Reporter, p *Prog, pkg string, info *types.Info, 
 			}
 			for _, gn := range gb.Nodes {
 				if as, ok := gn.(*ast.AssignStmt); ok && len(as.Rhs) == 1 && len(as.Lhs) == 2 {
-					if cl, ok := ast.Unparen(as.Rhs[0]).(*ast.CallExpr); ok && strings.HasSuffix(rawKey(cl.Fun), ".tree.Get") {
+					if cl, ok := ast.Unparen(as.Rhs[0]).(*ast.CallExpr); ok && isTreeGet(cl) {
 						dup := false
 						for _, g := range getSites {
 							if g == as {
@@ -681,4 +717,44 @@ func checkStoredValueNonNil(r *Reporter, p *Prog, pkg string, info *types.Info) 
 		return
 	}
 	r.Pass("presence/stored-value-non-nil", key, f.PosOf(updates[0]), "the value is nil-tested on every path and replaced by a non-nil slice on the nil edge before tree.Update")
+}
+
+// adsPartIs: is e the named field of authenticatedMap, or (for the fields whose type no other field
+// shares) a value of that field's type - the field handed to a helper as a parameter?
+func adsPartIs(p *Prog, pkg string, info *types.Info) func(e ast.Expr, field string) bool {
+	_, st := p.NamedStruct(pkg, "authenticatedMap")
+	typeOfField := map[string]string{}
+	count := map[string]int{}
+	if st != nil {
+		for i := 0; i < st.NumFields(); i++ {
+			tn := types.TypeString(st.Field(i).Type(), nil)
+			typeOfField[st.Field(i).Name()] = tn
+			count[tn]++
+		}
+	}
+	return func(e ast.Expr, field string) bool {
+		if fieldSel(info, e, field) {
+			return true
+		}
+		tn, ok := typeOfField[field]
+		if !ok || count[tn] != 1 {
+			return false
+		}
+		if _, isSel := ast.Unparen(e).(*ast.SelectorExpr); isSel {
+			return false // another field
+		}
+		t := info.TypeOf(e)
+		return t != nil && types.TypeString(t, nil) == tn
+	}
+}
+
+// constArgs: the integer constants among the arguments of a call, as decimal strings.
+func constArgs(info *types.Info, c *ast.CallExpr) []string {
+	var out []string
+	for _, a := range c.Args {
+		if tv, ok := info.Types[a]; ok && tv.Value != nil {
+			out = append(out, tv.Value.String())
+		}
+	}
+	return out
 }
